@@ -138,12 +138,16 @@ func oracleFit(c *gal.Ctx, idx int, k string, ptr uint32, t []fe, got verd, d in
 				}
 			}
 		}
+		// the listed panic needs an ACM entry listed after a BIOS startup module entry
+		acmAfterIBB := len(ibb) > 0 && len(acm) > 0 && acm[len(acm)-1] > ibb[0]
 		switch {
-		case got.Panic:
+		case got.Panic && acmAfterIBB:
 			c.OracleFailKnown(idx, "C05-FIT-ACM-size-panic", "NoBIOSACMOverlap panics in getFITDataSize as soon as a startup ACM entry follows a BIOS startup module entry", siteFit+":getFITDataSize", d)
+		case got.Panic:
+			c.OracleFail(idx, "NoBIOSACMOverlap panicked: "+got.Msg, siteFit+":NoBIOSACMOverlap", d)
 		case !got.E2 && got.OK == spec && got.E1 == !spec:
 			c.OracleOK()
-		case got.OK && !spec:
+		case got.OK && !spec && !acmAfterIBB:
 			c.OracleFailKnown(idx, "C05-NoBIOSACMOverlap-order", "NoBIOSACMOverlap accepts an ACM that overlaps a BIOS startup module when the ACM is listed first", siteFit+":NoBIOSACMOverlap", d)
 		default:
 			c.OracleFail(idx, fmt.Sprintf("NoBIOSACMOverlap: exact interval arithmetic says disjoint=%v, implementation returned %+v", spec, got), siteFit+":NoBIOSACMOverlap", d)
@@ -183,8 +187,10 @@ func oracleFit(c *gal.Ctx, idx int, k string, ptr uint32, t []fe, got verd, d in
 			}
 		}
 		switch {
-		case got.Panic:
+		case got.Panic && len(acm) > 0:
 			c.OracleFailKnown(idx, "C05-FIT-ACM-size-panic", "BIOSACMIsBelow4G panics in getFITDataSize for every FIT with a startup ACM entry", siteFit+":getFITDataSize", d)
+		case got.Panic:
+			c.OracleFail(idx, "BIOSACMIsBelow4G panicked: "+got.Msg, siteFit+":BIOSACMIsBelow4G", d)
 		case !got.E2 && got.OK == spec && got.E1 == !spec:
 			c.OracleOK()
 		default:
